@@ -33,8 +33,9 @@ def prevote (s : State) (feeder validator : String) (hash : Str) (round : Nat) :
     match s.os.round with
     | none => ⟨s, .err⟩
     | some ri =>
-      if ri.id != round || (s.h : Int) > ri.prevoteEnd then ⟨s, .err⟩
-      else ⟨{ s with os := { s.os with prevotes := alSet s.os.prevotes validator hash } }, .ok ""⟩
+      if ri.id = round ∧ (s.h : Int) ≤ ri.prevoteEnd then
+        ⟨{ s with os := { s.os with prevotes := alSet s.os.prevotes validator hash } }, .ok ""⟩
+      else ⟨s, .err⟩
   | _, _ => ⟨s, .err⟩
 
 /-- `MsgVote` -/
@@ -44,13 +45,10 @@ def vote (H : Str → Str) (s : State) (feeder validator : String) (salt : Str) 
     match s.os.round with
     | none => ⟨s, .err⟩
     | some ri =>
-      if ri.id != round || (s.h : Int) > ri.voteEnd then ⟨s, .err⟩
-      else if !validateVoteData s.st.params.chains vds then ⟨s, .err⟩
-      else match alGet s.os.prevotes validator with
-        | none => ⟨s, .err⟩
-        | some pv =>
-          if pv != hashOf H salt vds then ⟨s, .err⟩
-          else ⟨{ s with os := { s.os with votes := alSet s.os.votes validator vds, prevotes := alErase s.os.prevotes validator } }, .ok ""⟩
+      if ri.id = round ∧ (s.h : Int) ≤ ri.voteEnd ∧ validateVoteData s.st.params.chains vds = true ∧
+         alGet s.os.prevotes validator = some (hashOf H salt vds) then
+        ⟨{ s with os := { s.os with votes := alSet s.os.votes validator vds, prevotes := alErase s.os.prevotes validator } }, .ok ""⟩
+      else ⟨s, .err⟩
   | _, _ => ⟨s, .err⟩
 
 def getVal (vals : List Val) (i : Nat) : Option Val := vals[i]?
